@@ -52,6 +52,7 @@ func (x sharedTransactionData) bytes() (r)
   ensures r == ser(x) && !isnil(r)
 
 func (x sharedTransactionData) unshiftChecksum(data) (r)
+  logged
   ensures [C13] len(cks(x)) == 4 && r == cks(x) ++ data
 
 func (x sharedTransactionData) shiftChecksum(data) (ok, r)
@@ -137,4 +138,52 @@ func _newCustomCommitteeNotaryActor(b, localAcc, committee, payerAcc, fCommittee
   // one actor is built per call, and only after the committee account was composed
   ensures [C13] isnil(err) ==> xcalls("notary.NewActor").len == old(xcalls("notary.NewActor")).len + 1
   ensures [C13] xcalls("notary.NewActor").len <= old(xcalls("notary.NewActor")).len + 1
+@*/
+
+/*@
+module ticks
+props C13
+dialect go64
+use deploy codec
+use deploy bootstrap
+
+// Helpers whose bodies are outside the subset (atomics, goroutines, type switches over library interfaces): abstracted like
+// library calls - one event per call in the ghost log named after the function, unconstrained results, nothing claimed about
+// what they compute. `pure` says only that they leave the other ghost logs alone (they cannot reach the closure's variables).
+func lookupNNSDomainRecord(inv, nnsContract, domainName) (r, err)
+  trusted
+  pure
+  logged
+
+func (x blockchainMonitor) currentHeight() (r)
+  trusted
+  pure
+  logged
+
+func (x transactionGroupMonitor) isPending() (r)
+  trusted
+  pure
+
+func (x transactionGroupMonitor) reset()
+  trusted
+  pure
+  logged
+
+func (x transactionGroupMonitor) trackPendingTransactionsAsync(ctx, vub, txs)
+  trusted
+  pure
+  logged
+
+// C13 (Notary bootstrap, one tick of a non-leading member; tx - the designation transaction kept between ticks - is an
+// arbitrary value on entry): whatever the member signs in this tick is a transaction carrying exactly the shared
+// parameters read from the NNS in this tick, and the signature is framed with the checksum of these same parameters - so
+// a signature the leader accepts by its checksum was made for the transaction the leader holds. At most one signature per tick.
+func initDesignateNotaryRoleAsSignerTick(ctx, prm)
+  closure
+  ensures [C13] xcalls("wallet.Account.SignHashable").len <= old(xcalls("wallet.Account.SignHashable")).len + 1
+  ensures [C13] xcalls("wallet.Account.SignHashable").len == old(xcalls("wallet.Account.SignHashable")).len + 1 ==>
+        exists n Int, t Transaction, x sharedTransactionData, d Bytes ::
+          xcalls("wallet.Account.SignHashable")[old(xcalls("wallet.Account.SignHashable")).len] == ev_wallet_Account_SignHashable(n, t)
+          && xcalls("sharedTransactionData.unshiftChecksum")[old(xcalls("sharedTransactionData.unshiftChecksum")).len] == ev_sharedTransactionData_unshiftChecksum(x, d)
+          && t.Nonce == x.nonce && t.ValidUntilBlock == x.validUntilBlock && len(t.Signers) > 0 && t.Signers[0].Account == x.sender
 @*/
